@@ -11,6 +11,67 @@ SUITES = {
 }
 
 PROPS = {
+    "C01": {
+        "lean": ["Brc20.Props.C01"], "suites": ["E", "T"],
+        "oracle_families": ["reorg-vs-fresh-replay", "replay-refused", "rollback-in-window"],
+        "level": "proof", "trusted": ["revm (parameter): what a run did arrives as recorded events; deterministic in state view and environment", "EVM recorder / table-write hooks (cargo feature verif-hooks)", "opaque hash functions (keccak, sha256, merkle, bloom): row contents are compared on the real code only"],
+        "assumptions": ["the window hypothesis of C01.reorg_restores_tables (each table's newest stamp <= highest finalised block) is an invariant of block-structured histories; known finding F10 (a parked pending transaction is stamped H+1 with no block under construction) is outside it"],
+    },
+    "C02": {
+        "lean": ["Brc20.Props.C02"], "suites": ["E"],
+        "oracle_families": ["replica-response", "twin-diverged", "twin-observation", "golden"],
+        "level": "proof", "trusted": ["revm (parameter): what a run did arrives as recorded events; deterministic in state view and environment", "EVM recorder / table-write hooks (cargo feature verif-hooks)", "opaque hash functions (keccak, sha256, merkle, bloom): row contents are compared on the real code only"] + ["golden digests in /verif/golden are regression evidence for the pinned protocol version, not proof"],
+        "assumptions": ["replicas compared: same process / different hash seeds, different directories, different commit and restart schedules; the block processing time is removed from observations"],
+    },
+    "C03": {
+        "lean": ["Brc20.Props.C03"], "suites": ["E", "T"],
+        "oracle_families": ["clear-vs-last-commit", "twin-observation", "read"],
+        "level": "proof", "trusted": ["revm (parameter): what a run did arrives as recorded events; deterministic in state view and environment", "EVM recorder / table-write hooks (cargo feature verif-hooks)", "opaque hash functions (keccak, sha256, merkle, bloom): row contents are compared on the real code only"], "assumptions": [],
+    },
+    "C05": {
+        "lean": ["Brc20.Props.C05"], "suites": ["E"],
+        "oracle_families": ["rejected-not-noop", "protocol-not-enforced", "unexpected-error"],
+        "level": "proof", "trusted": ["revm (parameter): what a run did arrives as recorded events; deterministic in state view and environment", "EVM recorder / table-write hooks (cargo feature verif-hooks)", "opaque hash functions (keccak, sha256, merkle, bloom): row contents are compared on the real code only"],
+        "assumptions": ["the tx_idx / timestamp / hash rules apply to calls that append a transaction; a signed transaction that is only parked or ignored appends nothing and is answered Ok([])",
+                        "brc20_mine failing on a generated-hash collision after finalising some blocks (finding F16) is not covered by the no-op theorems (mine_waiting_noop only)"],
+    },
+    "C06": {
+        "lean": ["Brc20.Props.C06"], "suites": ["E"],
+        "oracle_families": ["coherence", "coherence-dup-txhash"],
+        "level": "proof", "trusted": ["revm (parameter): what a run did arrives as recorded events; deterministic in state view and environment", "EVM recorder / table-write hooks (cargo feature verif-hooks)", "opaque hash functions (keccak, sha256, merkle, bloom): row contents are compared on the real code only"],
+        "assumptions": ["model level: heights, hash<->number rows, counters; row contents (bloom, merkle root, raw encodings, receipts) are checked by the coherence oracle on the real code at every block boundary"],
+    },
+    "C08": {
+        "lean": ["Brc20.Props.C08"], "suites": ["E"],
+        "oracle_families": ["pool-receipts", "pool-index"],
+        "level": "proof", "trusted": ["revm (parameter): what a run did arrives as recorded events; deterministic in state view and environment", "EVM recorder / table-write hooks (cargo feature verif-hooks)", "opaque hash functions (keccak, sha256, merkle, bloom): row contents are compared on the real code only"] + ["secp256k1 recovery / RLP decoding of raw transactions: harness-side oracle (decodeRaw)"],
+        "assumptions": ["revm bumps the sender nonce by one for every run it accepts (contract); known finding F11 covers runs it rejects"],
+    },
+    "C10": {
+        "lean": ["Brc20.Props.C10"], "suites": ["E"],
+        "oracle_families": ["read-changed-state", "read-wrote", "twin-observation"],
+        "level": "proof", "trusted": ["revm (parameter): what a run did arrives as recorded events; deterministic in state view and environment", "EVM recorder / table-write hooks (cargo feature verif-hooks)", "opaque hash functions (keccak, sha256, merkle, bloom): row contents are compared on the real code only"] + ["revm's replay()/transact_one() do not call DatabaseCommit (validated by the recorder on every read, not proved)"],
+        "assumptions": [],
+    },
+    "C17": {
+        "lean": ["Brc20.Props.C17"], "suites": ["E"],
+        "oracle_families": ["call-prediction"],
+        "level": "proof", "trusted": ["revm (parameter): what a run did arrives as recorded events; deterministic in state view and environment", "EVM recorder / table-write hooks (cargo feature verif-hooks)", "opaque hash functions (keccak, sha256, merkle, bloom): row contents are compared on the real code only"],
+        "assumptions": ["programs that do not read timestamp, randomness, remaining gas or the current txid, as the property states"],
+    },
+    "C18": {
+        "lean": ["Brc20.Props.C18"], "suites": ["E"],
+        "oracle_families": ["logs", "logs-range"],
+        "level": "proof", "trusted": ["revm (parameter): what a run did arrives as recorded events; deterministic in state view and environment", "EVM recorder / table-write hooks (cargo feature verif-hooks)", "opaque hash functions (keccak, sha256, merkle, bloom): row contents are compared on the real code only"],
+        "assumptions": ["heights below 2^63 (C18.range_rule shows why the wrapping subtraction needs a bound)"],
+    },
+    "C19": {
+        "lean": ["Brc20.Props.C19"], "suites": ["E"],
+        "oracle_families": ["context"],
+        "level": "proof", "trusted": ["revm (parameter): what a run did arrives as recorded events; deterministic in state view and environment", "EVM recorder / table-write hooks (cargo feature verif-hooks)", "opaque hash functions (keccak, sha256, merkle, bloom): row contents are compared on the real code only"],
+        "assumptions": ["regtest rules (Prague from height 0) in the suite; the fork table of other networks is pinned by C02.constants_pinned"],
+    },
+
     "C20": {
         "lean": ["Brc20.Props.C20"],
         "suites": ["F"],
